@@ -2,8 +2,8 @@
    Only statements and `exact`; the proofs are in Proofs/C34.v.
    Model: Model/Limiter.v (addrquota.ipKey; token bucket in exact arithmetic; packetlimiter's counter ring
    buffer, limiter and float comparison) over Base/Ip.v. *)
-From Coq Require Import List ZArith NArith Bool String.
-From Verif Require Import Base.Hex Base.Ip Model.Limiter Proofs.C34.
+From Coq Require Import List ZArith NArith Bool String QArith.
+From Verif Require Import Base.Hex Base.Ip Model.Limiter Proofs.C34 Proofs.C34_float.
 Import ListNotations.
 Open Scope Z_scope.
 
@@ -39,12 +39,66 @@ Theorem C34_limiter_refines_window : forall exc pps bps iv evs,
 Proof. exact limiter_refines_window. Qed.
 Print Assumptions C34_limiter_refines_window.
 
-(* PARTIAL.  The comparison Account really makes, float64(total) / (float64(interval) * 1e-9) > float64(limit),
-   is modelled bit-exactly (IEEE-754 binary64 via Coq.Floats.SpecFloat) as exceeds_float; the property's comparison is exceeds_exact
-   (limit * interval < total * 10^9).  Proved equal only on a table of 14 windows x 20 limits at the totals
-   within 2 of the threshold (and 0, 2t+1), and for the default configuration (7 s, 500/s) on every total up
-   to 8099.  Missing: all totals/windows/limits (needs monotonicity of IEEE division, e.g. from Flocq's real-number
-   specification, which would bring the classical-reals axioms in); the boundary sweep of the correspondence (totals at rate*window -1/0/+1) carries the rest. *)
+(* The comparison Account really makes, float64(total) / (float64(interval) * 1e-9) > float64(limit), is
+   modelled bit-exactly (IEEE-754 binary64 via Coq.Floats.SpecFloat) as exceeds_float; the property's
+   comparison is exceeds_exact (limit * interval < total * 10^9).
+
+   OUTSIDE THE BAND.  With u = 2^-53, c = the binary64 constant 1e-9 = 10^-9 * (1 + 301175296 * 2^-82),
+   P = interval * c, the band is   T*(1-u) <= L*P*(1+u)  and  L*P*(1-u) < T*(1+u)   (outside_band is its
+   complement).  For EVERY total >= 0, interval > 0, limit > 0 whose float run obeys the standard model of
+   floating-point arithmetic (float_run_ok: conversions exact, each of the two roundings within relative
+   error 2^-53 of the exact product / quotient, float comparison = comparison of the denoted rationals --
+   a decidable predicate that the judge evaluates on every decision it replays), outside the band the float
+   decision equals the exact one.  What remains assumed: that float_run_ok holds for all admissible inputs
+   (the textbook bound |fl(x) - x| <= 2^-53 |x| for normal results; Coq's SpecFloat has no such lemma and
+   it is not proved here); it is checked bit by bit on the tables below and on every judged case.  Inside
+   the band (|T*10^9 - L*iv| * 2^51 <= L*iv at the widest) the bit-exact model decides. *)
+Theorem C34_float_decision_exact_outside_band : forall tot iv limit,
+  0 <= tot -> 0 < iv -> 0 < limit ->
+  float_run_ok tot iv limit = true -> outside_band tot iv limit = true ->
+  exceeds_float tot iv limit = exceeds_exact tot iv limit.
+Proof. exact float_decision_exact_outside_band. Qed.
+Print Assumptions C34_float_decision_exact_outside_band.
+
+(* the band is thin: |T*10^9 - L*iv| * 2^51 > L*iv already puts a total outside *)
+Theorem C34_far_from_equality_outside_band : forall tot iv limit,
+  0 < iv -> 0 < limit ->
+  far_from_equality tot iv limit = true -> outside_band tot iv limit = true.
+Proof. exact far_from_equality_outside_band. Qed.
+Print Assumptions C34_far_from_equality_outside_band.
+
+(* the arithmetic core, for ANY computed product d and quotient q within relative error u (no floats) *)
+Theorem C34_band_arithmetic : forall u c0 dl : Q,
+  (0 < u /\ u < 1)%Q -> (0 < c0)%Q -> (0 < dl /\ dl < u)%Q ->
+  forall T iv L : Q, (0 <= T)%Q -> (0 < iv)%Q -> (0 < L)%Q ->
+  forall d q : Q,
+  ((1 - u) * (iv * (c0 * (1 + dl))) <= d /\ d <= (1 + u) * (iv * (c0 * (1 + dl))))%Q ->
+  ((1 - u) * T <= q * d /\ q * d <= (1 + u) * T)%Q ->
+  (L * (iv * (c0 * (1 + dl))) * (1 + u) < T * (1 - u))%Q -> (L < q /\ L * iv * c0 < T)%Q.
+Proof. exact above_band. Qed.
+Print Assumptions C34_band_arithmetic.
+
+(* the standard model checked bit by bit: 8 windows (1 ms .. 1 h) x 8 limits x 7 totals around the threshold *)
+Theorem C34_float_run_ok_table : run_ok_table = true.
+Proof. exact float_run_ok_table. Qed.
+Print Assumptions C34_float_run_ok_table.
+
+(* default 7 s / 500 pps: a total far from the band (theorem applies) and one inside it (bit-exact model decides) *)
+Example C34_float_default_far_from_band :
+  float_run_ok 100 7000000000 500 = true /\ far_from_equality 100 7000000000 500 = true /\
+  outside_band 100 7000000000 500 = true /\
+  exceeds_float 100 7000000000 500 = exceeds_exact 100 7000000000 500 /\
+  float_run_ok 3501 7000000000 500 = true /\ outside_band 3501 7000000000 500 = true /\
+  exceeds_float 3501 7000000000 500 = true.
+Proof. exact float_default_far_from_band. Qed.
+
+Example C34_float_default_inside_band :
+  float_run_ok 3500 7000000000 500 = true /\ outside_band 3500 7000000000 500 = false /\
+  exceeds_float 3500 7000000000 500 = false /\ exceeds_exact 3500 7000000000 500 = false.
+Proof. exact float_default_inside_band. Qed.
+
+(* TABLE (kept): float = exact, inside the band included, on 14 windows x 20 limits at the totals within 2
+   of the threshold (and 0, 2t+1), and for the default configuration on every total up to 8099. *)
 Theorem C34_float_decision_exact_partial :
   (forall iv limit, In iv float_table_windows -> In limit float_table_limits ->
      let t := limit * iv / 1000000000 in
